@@ -51,12 +51,13 @@ type TermFactory struct {
 	dtypes   map[string]string // datatype name -> declaration
 	dtOrd    []string
 	declOrd  []string
+	unfold   map[int]*Term // application of a defined specification function -> its unfolded body
 	ranges []*Term  // global range facts (Bool terms) asserted for typed constants / loads
 	fresh  int
 }
 
 func NewFactory() *TermFactory {
-	return &TermFactory{hash: map[string]*Term{}, funs: map[string]string{}, declared: map[int]bool{}, seqs: map[string]SeqInfo{}, dtypes: map[string]string{}}
+	return &TermFactory{hash: map[string]*Term{}, funs: map[string]string{}, declared: map[int]bool{}, seqs: map[string]SeqInfo{}, dtypes: map[string]string{}, unfold: map[int]*Term{}}
 }
 
 func (f *TermFactory) key(op string, sort Sort, name string, args []*Term) string {
